@@ -73,8 +73,20 @@ def run(ctx):
         for leaf, conds in paths(Kt[2][0], []):
             n += 1
             # contradictory path conditions (a<b and b<a) are infeasible
-            trues = [c for c, v in conds if v]
-            if any(c[0] == 'cmp' and c[1] == '<' and ('cmp', '<', c[3], c[2]) in trues for c in trues):
+            def val_of(e, conds=conds):
+                """truth value the path conditions give to comparison e (conditions are stored in canonical polarity)"""
+                c, fl = T.canon_cond(e)
+                for cc, v in conds:
+                    if cc == c:
+                        return (not v) if fl else v
+                return None
+            contradiction = False
+            for c, v in conds:
+                a = c if v else T.mk_not(c)
+                a, fl = (a[1], True) if a[0] == 'not' else (a, False)
+                if a[0] == 'cmp' and a[1] == '<' and not fl and val_of(T.mk_cmp('<', a[3], a[2])) is True:
+                    contradiction = True
+            if contradiction:
                 continue
             ln = length(leaf)
             ok = False
@@ -85,8 +97,8 @@ def run(ctx):
                 ok = any(v == ('-', (sz, u)) for u, v in ((a, b), (b, a)))
             if not ok:
                 lenleaf = ('call', ('b', 'len'), (leaf,), ())
-                notlt = (T.mk_cmp('<', lenleaf, sz), False) in conds
-                notgt = (T.mk_cmp('<', sz, lenleaf), False) in conds
+                notlt = val_of(T.mk_cmp('<', lenleaf, sz)) is False
+                notgt = val_of(T.mk_cmp('<', sz, lenleaf)) is False
                 if notlt and notgt:
                     ok = True
                 elif notlt and leaf[0] == 'call' and leaf[1] == ('attr', SELF, 'h'):
